@@ -54,7 +54,7 @@ def rand_scalar(rng):
         n = rng.randint(-999, 999)
         return enc(rng.choice([str(n), '%d.%d' % (n, rng.randint(0, 99)), '+%d' % abs(n)]))
     if k == 5:
-        return enc(rng.choice(['qq#', 'zz top', 'a_b', 'x=1', '#?!']))
+        return enc(rng.choice(['qq#', 'zz top', 'a_b', 'x=1', '#?!', 'abc%', '%', 'n/a %', '5-10%', 'x$', 'e', 'E5', '.', '-', '+', '1e', '0x', '\u00b2', '%5']))
     if k == 6:
         return {'t': 'date', 'y': rng.randint(1901, 2150), 'mo': rng.randint(1, 12), 'd': rng.randint(1, 28),
                 'ms': rng.choice([0, 0, 10800000, 21600000, 43200000, 64800000])}
@@ -88,7 +88,7 @@ def big_out(rec):
 def run_big(lib, op, a, b, a_text, b_text, mode):
     """a op b on integers a double cannot hold, each given as a number or as text spelling it"""
     p = lib.Parser()
-    if float(a) == a:
+    if abs(a) < 2 ** 1000 and float(a) == a:
         # the float that equals a was an operand a moment ago: a is still the integer it is
         p.set_variable('vf', float(a))
         p.parse('vf+0')
@@ -133,6 +133,8 @@ def big_cases(rng, n):
     for _ in range(n):
         a = rng.choice([2 ** 53 + 1, 10 ** 16 + 1, 10 ** 17 + 7, rng.randint(2 ** 53, 10 ** 30), rng.randint(10 ** 15, 10 ** 19),
                         2 ** 128, rng.randint(10 ** 30, 10 ** 60), 10 ** 40 + 1])
+        if rng.random() < 0.12:       # integers beyond the largest double: still integers
+            a = rng.choice([10 ** 309 + 1, 2 ** 1024, 2 ** 1024 - 1, 2 * 10 ** 308, 9 * 10 ** 307, rng.randint(10 ** 300, 10 ** 320), 10 ** 400 + 7])
         a = a if rng.random() < 0.7 else -a
         op = rng.choice(['+', '-', '+', '-', '*', '&'])
         if rng.random() < 0.15:
